@@ -62,6 +62,7 @@ class Prop(object):
                         u.append(('signed', {'order': list(order), 'times': times, 'export_between': True}))
         for order in ([3], [3, 0], [0, 3], [1, 3, 0]):
             u.append(('signed', {'order': order, 'times': 'increasing'}))
+        u.append(('filetimes', {}))
         u.append(('charsets', {}))
         u.append(('encrypted', {}))
         for comp in (0, 1, 2, 3):
@@ -222,6 +223,65 @@ class Prop(object):
         r.dim('compression', comp)
         r.dim('format', fmt)
         r.samples.append(dict(case))
+        return r
+
+    def c_filetimes(self, case):
+        """Messages made from files (path given as str, bytes, pathlib.Path): name, content and - for every boundary of the four-octet time, zero
+        included - the file's modification time are what the literal packet carries, also for the empty file."""
+        import pathlib
+        import pgpy
+        from pgpy.constants import CompressionAlgorithm
+        r = Res()
+        times = [0, 1, 86399, 86400, T_FILE, (1 << 31) - 1, 1 << 31, (1 << 32) - 1]
+        d = tempfile.mkdtemp(prefix='c20t')
+        try:
+            for t in times:
+                for content in (b'', b'dated content\r\nsecond line'):
+                    for kind in ('str', 'path', 'bytes'):
+                        for comp in ('Uncompressed', 'ZLIB'):
+                            if case.get('only') is not None and case['only'] != [t, len(content), kind, comp]:
+                                continue
+                            r.states += 1
+                            r.transitions += 1
+                            label = 'message from a file of %d octets, modification time %d, path as %s, compression %s' % (len(content), t, kind, comp)
+                            probs = []
+                            try:
+                                path = os.path.join(d, 'dated file.txt')
+                                with open(path, 'wb') as f:
+                                    f.write(content)
+                                os.utime(path, (t, t))
+                                arg = path if kind == 'str' else pathlib.Path(path) if kind == 'path' else path.encode()
+                                try:
+                                    m = pgpy.PGPMessage.new(arg, file=True, compression=CompressionAlgorithm[comp])
+                                except (TypeError, AttributeError, ValueError) as e:
+                                    if kind == 'str':
+                                        raise
+                                    r.outcomes['path-kind-not-accepted'] += 1
+                                    continue
+                                for form in (bytes(m), rarmor.dearmor(str(m))['data']):
+                                    p2, rec = self._grammar(form, 0, COMP_ID[comp], label)
+                                    probs += p2
+                                    if rec is not None and not p2:
+                                        lit = rec['literal']
+                                        if lit['time'] != t:
+                                            probs.append('literal time %d, the file says %d' % (lit['time'], t))
+                                        if lit['data'] != content:
+                                            probs.append('content differs from the file')
+                                        if lit['name'] != b'dated file.txt':
+                                            probs.append('file name %r' % (lit['name'],))
+                                m2 = pgpy.PGPMessage.from_blob(bytes(m))
+                                if A.msg_view(m2)['time'] != t:
+                                    probs.append('time after import %r' % (A.msg_view(m2)['time'],))
+                            except Exception as e:
+                                probs.append('raises %r' % (e,))
+                            r.outcomes['ok' if not probs else 'violation'] += 1
+                            if probs:
+                                r.viol('filetimes', {'part': 'filetimes', 'time': 'zero' if t == 0 else 'other', 'path': kind}, dict(case, only=[t, len(content), kind, comp]), label + ': ' + '; '.join(probs[:2]))
+        finally:
+            for f in os.listdir(d):
+                os.unlink(os.path.join(d, f))
+            os.rmdir(d)
+        r.samples.append({'file_times': times})
         return r
 
     def c_charsets(self, case):
